@@ -96,31 +96,40 @@ def splitPos (value : Str) (avl : Int) : Int :=
   | some i => (i : Int)
   | none => adjustSplit value (avl - 1)
 
+/-- text appended by "start a new line" (or nothing) -/
+def linePre (cfg : FoldCfg) (value : Str) (linePos : Int) : Str :=
+  if startsNewLine cfg value linePos then newLine cfg else []
+/-- `line_pos` after the new-line decision -/
+def lineLp (cfg : FoldCfg) (value : Str) (linePos : Int) : Int :=
+  if startsNewLine cfg value linePos then (cfg.indent : Int) else linePos
+/-- `avl_len` after the new-line decision -/
+def lineAvl (cfg : FoldCfg) (value : Str) (linePos : Int) : Int :=
+  if startsNewLine cfg value linePos then avlNew cfg else avlCur cfg linePos
+/-- `split_pos + 1` as a slice bound of `value` -/
+def cutPos (cfg : FoldCfg) (value : Str) (linePos : Int) : Nat :=
+  normIdx value.length (splitPos value (lineAvl cfg value linePos) + 1)
+/-- one quoted part, preceded by the new line if one was started -/
+def piece (cfg : FoldCfg) (value : Str) (linePos : Int) (part : Str) : Str :=
+  linePre cfg value linePos ++ cfg.quote :: part ++ [cfg.quote]
+
 /-- mirrors _cim_obj.py: mofstr — the `while True` loop; returns the text appended to `mof` and the final
     line_pos.  `fuel` bounds the iterations (`mofstr` supplies len+1, which always suffices: theorem
-    `mofstr_fuel`); the "endless loop" assertion of the code is the AssertionError result. -/
+    `C08_mofstr_fuel_suffices`); the "endless loop" assertion of the code is the AssertionError result. -/
 def mofstrLoop (cfg : FoldCfg) : Nat → Str → Int → Except PyExc (Str × Int)
   | 0, _, _ => .error .recursionError
   | fuel + 1, value, linePos =>
-    let nl := startsNewLine cfg value linePos
-    let pre : Str := if nl then newLine cfg else []
-    let lp : Int := if nl then (cfg.indent : Int) else linePos
-    let avl : Int := if nl then avlNew cfg else avlCur cfg linePos
-    if (value.length : Int) ≤ avl - cfg.endSpace then
-      .ok (pre ++ cfg.quote :: value ++ [cfg.quote], lp + 2 + value.length)
+    if (value.length : Int) ≤ lineAvl cfg value linePos - cfg.endSpace then
+      -- "the entire string fits (that is a last line, then)"
+      .ok (piece cfg value linePos value, lineLp cfg value linePos + 2 + value.length)
+    else if value.drop (cutPos cfg value linePos) = [] then
+      .ok (piece cfg value linePos (value.take (cutPos cfg value linePos)),
+           lineLp cfg value linePos + 2 + (value.take (cutPos cfg value linePos)).length)
+    else if value.drop (cutPos cfg value linePos) = value then .error .assertionError
     else
-      let sp := splitPos value avl
-      let cut := normIdx value.length (sp + 1)
-      let part := value.take cut
-      let rest := value.drop cut
-      let out := pre ++ cfg.quote :: part ++ [cfg.quote]
-      let lp' := lp + 2 + part.length
-      if rest = [] then .ok (out, lp')
-      else if rest = value then .error .assertionError
-      else
-        match mofstrLoop cfg fuel rest lp' with
-        | .error e => .error e
-        | .ok r => .ok (out ++ r.1, r.2)
+      match mofstrLoop cfg fuel (value.drop (cutPos cfg value linePos))
+              (lineLp cfg value linePos + 2 + (value.take (cutPos cfg value linePos)).length) with
+      | .error e => .error e
+      | .ok r => .ok (piece cfg value linePos (value.take (cutPos cfg value linePos)) ++ r.1, r.2)
 
 /-- mirrors _cim_obj.py: mofstr -/
 def mofstr (value : Str) (indent maxline : Nat) (linePos : Int) (endSpace : Nat) (avoidSplits : Bool)
